@@ -54,6 +54,41 @@ int main(int argc, char** argv) {
         else if (WEXITSTATUS(stt) != 0) { printf("MISMATCH start file '%s': %s\n", c.name, c.want < 0 ? "was accepted although its shape is unusable" : "was refused or loaded with the wrong grid size"); bad++; }
         remove(fn.c_str());
     }
+    // C11: which record is loaded.  Record k of the file holds the value 1+k everywhere; step s >= 0 selects record s, step s < 0
+    // counts from the end (-1 = last).  Record counts that are not powers of two on purpose.
+    for (hsize_t nrec : {2, 3, 5, 6, 8}) {
+        std::string fn = std::string("/tmp/vf_h5start_") + std::to_string((long)getpid()) + "_rec" + std::to_string((long)nrec) + ".h5";
+        {
+            H5::H5File f(fn, H5F_ACC_TRUNC); f.createGroup("/PhaseSpace");
+            hsize_t d[3] = {nrec, 8, 8};
+            H5::DataSpace sp(3, d);
+            H5::DataSet ds = f.createDataSet("/PhaseSpace/data", H5::PredType::IEEE_F32LE, sp);
+            std::vector<float> v(nrec * 64);
+            for (hsize_t k = 0; k < nrec; k++) for (int c = 0; c < 64; c++) v[k * 64 + c] = 1.0f + k;
+            ds.write(v.data(), H5::PredType::NATIVE_FLOAT);
+        }
+        for (long step : {-1L, -2L, 0L, 1L, (long)nrec - 1, -(long)nrec}) {
+            long want = step >= 0 ? step : (long)nrec + step;
+            fflush(stdout);
+            pid_t p = fork();
+            if (p == 0) {
+                freopen("/dev/null", "w", stderr);
+                auto ps = makePSFromHDF5(fn, step, -6, 6, -6, 6, nullptr, 1e-9, 1e-3, 1e-3, 1e3);
+                if (!ps) _exit(2);
+                const meshdata_t* dd = ps->getData();
+                bool ok = true;
+                for (int c = 0; c < 64; c++) ok = ok && dd[c] == 1.0f + want;
+                _exit(ok ? 0 : 1);
+            }
+            int stt = 0; waitpid(p, &stt, 0);
+            if (WIFSIGNALED(stt) || WEXITSTATUS(stt) != 0) {
+                printf("MISMATCH start file with %ld records, InitialDistStep %ld: %s (oracle: record %ld)\n", (long)nrec, step,
+                       WIFSIGNALED(stt) ? "loader killed by a signal" : WEXITSTATUS(stt) == 2 ? "refused" : "another record was loaded", want);
+                bad++;
+            }
+        }
+        remove(fn.c_str());
+    }
     printf("h5start: %d mismatches\n", bad);
     return bad ? 1 : 0;
 }
